@@ -235,6 +235,9 @@ func Subsets(n int, f func(mask uint) bool) {
 // OrderSpace describes which parts of a listing are permuted.
 type OrderSpace struct {
 	Commits bool // all linear extensions (children before parents)
+	// CommitsUnordered: git-sizer did not ask rev-list for a topological
+	// order, so every permutation of the commits is a possible listing
+	CommitsUnordered bool
 	Trees   bool // all permutations
 	Tags    bool // all permutations
 	Blobs   bool // all permutations
@@ -261,7 +264,11 @@ func Orders(r *mrepo.Repo, l *modelgit.Listing, sp OrderSpace, f func(order []mr
 	}
 	commitOrders := [][]mrepo.ID{commits}
 	if sp.Commits && len(commits) > 1 {
-		commitOrders = LinearExtensions(r, commits)
+		if sp.CommitsUnordered {
+			commitOrders = WalkOrders(r, commits)
+		} else {
+			commitOrders = LinearExtensions(r, commits)
+		}
 	}
 	perms := func(on bool, xs []mrepo.ID) [][]mrepo.ID {
 		if !on || len(xs) < 2 {
@@ -371,6 +378,61 @@ func LinearExtensions(r *mrepo.Repo, commits []mrepo.ID) [][]mrepo.ID {
 			rec()
 			for p := range seen {
 				children[p]++
+			}
+			cur = cur[:len(cur)-1]
+			done[c] = false
+		}
+	}
+	rec()
+	return out
+}
+
+// WalkOrders returns every order a plain `rev-list` (no --date-order /
+// --topo-order) can produce for some assignment of timestamps: the walk pops
+// the newest queued commit and queues its parents, so every commit that has a
+// listed child appears after at least one of its children; nothing else is
+// guaranteed.
+func WalkOrders(r *mrepo.Repo, commits []mrepo.ID) [][]mrepo.ID {
+	in := map[mrepo.ID]bool{}
+	for _, c := range commits {
+		in[c] = true
+	}
+	hasChild := map[mrepo.ID]bool{}
+	for _, c := range commits {
+		for _, p := range r.Objects[c].Parents {
+			if in[p] {
+				hasChild[p] = true
+			}
+		}
+	}
+	sorted := append([]mrepo.ID(nil), commits...)
+	sort.Slice(sorted, func(i, j int) bool { return sorted[i] < sorted[j] })
+	var out [][]mrepo.ID
+	cur := make([]mrepo.ID, 0, len(commits))
+	done := map[mrepo.ID]bool{}
+	avail := map[mrepo.ID]int{} // number of emitted children
+	var rec func()
+	rec = func() {
+		if len(cur) == len(commits) {
+			out = append(out, append([]mrepo.ID(nil), cur...))
+			return
+		}
+		for _, c := range sorted {
+			if done[c] || (hasChild[c] && avail[c] == 0) {
+				continue
+			}
+			done[c] = true
+			cur = append(cur, c)
+			for _, p := range r.Objects[c].Parents {
+				if in[p] {
+					avail[p]++
+				}
+			}
+			rec()
+			for _, p := range r.Objects[c].Parents {
+				if in[p] {
+					avail[p]--
+				}
 			}
 			cur = cur[:len(cur)-1]
 			done[c] = false
